@@ -194,3 +194,30 @@ check("C01",
       "files and the first lines of 25 repository data files are predicted by the same model (Gen_Import) and compared row by row.",
       TB + "Files consist of feature lines; coordinates are '.' or canonical decimals.",
       "TLA+ composed spec (ImportModel over AttrSyntax/Dialect/GffDB) + TLC fidelity theorems over small files x dialects + spec-predicted content for generated and real files compared with the code")
+
+
+# ---- what later rounds added to every check (appended to the level texts; details in DESIGN.md sections 7.3 and 9) ----
+ADDED = {
+    "C01": " Added later: the same lines as non-generator one-shot iterators and through a gzipped file:// URL without a final newline; a consistent block repeated to thousands of lines (stored once, in order, byte-identical); 18 column/extra shapes incl. exactly one '.' coordinate.",
+    "C02": " Added later: MC_DB02!InvBlockCompose (a file followed by its renamed copy imports to the union) and a scaled forest of ~2800 lines composed from the model's blocks, with one delete() of hundreds of ids; iter_by_parent_childs with ordering arguments.",
+    "C03": " Added later: a coordinate-0 exon and a transcript-less exon in the menu; MC_DB03C (block composition of the GTF importer) and a scaled GTF with > 1000 lines before the first explicit gene/transcript line; replayable data-file clauses.",
+    "C04": " Added later: keys that differ only in letter case, %-escaped spellings and case variants of stored keys as absent keys, tuple argument forms, a colon inside an autoincrement base, GffDB!Lookup on ONE live handle through update/delete/reopen histories (db[key] after the returned object was edited), Handle.tla / MC_Handle.",
+    "C05": " Added later: attribute keys named like columns, keys differing by a trailing blank or in case, zero-length arrivals, the same Feature objects imported again after a 'merge' import; the private duplicates table and the number of meta rows are not verdicts; derived GTF features compared on what C03 fixes.",
+    "C06": " Added later: histories on ONE handle (query, update beyond every earlier extent / on a new seqid, delete, move-and-replace, coordinate-moving transform, query again) judged against the rows stored at that moment; seqids differing only in case; a query that raises is an answer; Handle.tla / MC_Handle region battery.",
+    "C07": " Added later: every line is parsed twice with the first result edited in place in between; values that look like key=value; one-'.' coordinate shapes.",
+    "C08": " Added later: the re-parsed line is the SECOND print of the same object (printing must not edit it); parser entry points are reached through wrappers that fall back to the public route.",
+    "C09": " Added later: the window through list / tuple / generator of Features; the dialect a reopened database reports after an update with other-dialect Features; only the entries C09 lists are verdicts (not 'leading semicolon' / 'multival separator').",
+    "C10": " Added later: an unreadable .bak is an observation; MC_Compose10 (block composition of create/delete/update) and a scaled history (one delete of 1400 ids, one update of 1400 features, reopen); full garbage collection after failed updates (no dependence on allocation history); order and free columns of derived features are not verdicts.",
+    "C11": " Added later: battery / delete / update / battery histories on ONE handle judged against the rows stored at that moment; reversed stored records; Handle.tla / MC_Handle count and order battery.",
+    "C12": " Added later: Trace_Bins decides by the STATEMENT (OneBin_Decl incl. the empty interval, a declarative SetDecl on the returned runs); equality with the transcription of bins.py is reported as drift only.",
+    "C13": " Added later: attribute-less lines, coordinate 0 and start tallies in inspect(), default and caller-owned look_for used repeatedly, a raising transform, file:// URL and no-final-newline forms.",
+    "C14": " Added later: create_db with dialect= and with other importer options, CRLF files (plain and gzipped), the empty directive '##', 2100 directives in one file.",
+    "C15": " Added later: identical unsorted/repeated attributes on both neighbours, mixed-case values, update_attributes without merge_attributes, new_featuretype='' (TypeGiven).",
+    "C16": " Added later: merge_all judged on a fresh connection after close() without any harness commit, by signatures (merged ids only fresh and distinct), alone and scaled (320 gene models on per-block seqids in one database); criteria as tuple / generator / iterator; of a merged output only extent, children and member-agreed columns are verdicts.",
+    "C17": " Added later: AttrStore!Load (plain dict / stored JSON with scalars, read back from a database), objects hashed before an edit, twin database features, lines ending in white space, a shared key with an empty list; no private attributes of the library are read.",
+    "C18": " Added later: IUPAC codes in Intervals!Comp and in the references, the same transcript asked again with other block/thick/thin/name/colour arguments on one handle, look-alike child types; only the fields C18 fixes are verdicts (others: drift).",
+    "C19": " Added later: statement classification (temp objects and transaction brackets are not writes), bytes after reads are a note when the logical content and the stored dialect are unchanged, text sources with directives mixed with object sources in one process, a database file not named *.db, levels 3-4 in the read battery, merge_all before the reads.",
+    "C20": " Added later: the verdict is ConcurrentDecl!DJudge (any number of own, freshly named directory entries; k-th read-back = solitary k-th read-back; nothing left at done), MC_Concurrent!DeclAccepts (the code's protocol refines it, fixed names do not), same-basename outputs in different directories, gzip inputs (also with a FASTA section), private sub-directories as entries.",
+}
+for _pid, _txt in ADDED.items():
+    CHECKS[_pid]["text"] = CHECKS[_pid]["text"] + _txt
